@@ -13,6 +13,10 @@ namespace Driver
 
 def dispatch (fields : List String) : Verdict :=
   match fields with
+  | [_, "idclash", a, b, id] =>
+    -- the harness found two different names of one text carrying the same variable id
+    { modelOk := false, modelOut := "distinct ids for distinct names (C11.ids_injective)",
+      oracle := some s!"the tokenizer gave the two names {(unhexStr a).getD a} and {(unhexStr b).getD b} of one text the same variable id {id}" }
   | "C01" :: rest => handleC01 rest
   | "C06" :: rest => handleC06 rest
   | "C09" :: rest => handleC09 rest
